@@ -45,6 +45,7 @@ type Case struct {
 	Cfg    Cfg    `json:"cfg"`
 	Ops    []Op   `json:"ops"`
 	// race engine
+	N     int   `json:"n,omitempty"` // flood engine: number of other handshakes
 	K     int   `json:"k,omitempty"`
 	Noise int   `json:"noise,omitempty"`
 	Skew  int64 `json:"skew,omitempty"`
